@@ -46,11 +46,6 @@ def uses_priv(t):
     return any(p in t for p in NAMED_PRIV) or "Emb" in t
 
 
-def bad_for_deepcopy(t):
-    # F19-class: a map whose values are arrays of non-copyable elements does not compile (`dst[k][i] = …`)
-    return re.search(r"map\[[^\]]*\]\[\d\]", t) is not None
-
-
 def gen_random_part(rng, n):
     """n random struct declarations with random derive calls in random call-site forms."""
     types, body, pkgvars, tests = [], [], [], []
@@ -64,8 +59,6 @@ def gen_random_part(rng, n):
         rng.shuffle(plugins)
         for pl in plugins[: rng.randint(1, 4)]:
             if pl == "gostring" and any(uses_priv(t) for t in fields):
-                continue
-            if pl in ("deepcopy", "clone") and any(bad_for_deepcopy(t) for t in fields):
                 continue
             form = rng.choice(["body", "var", "closure", "test", "curried"])
             fn = "derive%s%s" % (pl.capitalize() if pl != "gostring" else "GoString", name)
